@@ -17,3 +17,9 @@ func vCover(label string)    {}
 func vConcrete(x int64) int64 { return x }
 func vIsEngine() bool        { return false }
 func vOut(s string)          {}
+func vKnown(key string)               {}
+func vParam(name string, def int) int { return def }
+func vAnd(a, b bool) bool             { return a && b }
+func vOr(a, b bool) bool              { return a || b }
+func vNot(a bool) bool                { return !a }
+func vIte(c bool, a, b int64) int64   { return a }
